@@ -6,8 +6,13 @@
 //          check stays silent) Validator::validateModel()
 //   run B: Model::hasUnlinkedUnits(), Model::linkUnits(), Model::hasUnlinkedUnits()
 //   run C: Model::clean()
+// A script may contain the pseudo-command `ops`: the commands after it are the PRE-HISTORY (calls of the units /
+// ownership API: addunits removeunits_* removeallunits takeunits_* replaceunits_* release setunits_p); their results
+// are recorded one by one and the state is dumped before (P0) and after (S0) them.
 // Output: one line per case, TAB separated fields
-//   S0 <state>            identity-based state before (format below; equal in the three runs, else NONDET)
+//   P0 <state>            state after the build part, before the pre-history
+//   OPS <r1,r2,...|->     results of the pre-history calls
+//   S0 <state>            identity-based state before the helpers (format below; equal in the three runs, else NONDET)
 //   FIX <ret> <state>
 //   VAL <issues>          issues with rule MAP_VARIABLES_ELEMENT / MAP_VARIABLES_VARIABLE1_ATTRIBUTE in logger order:
 //                         I<v> (ELEMENT, item = variable v), U<v>.<e> (ELEMENT, item = pair), N<v>.<e> (VARIABLE1_ATTRIBUTE)
@@ -21,6 +26,8 @@
 //   C <n> {comp}   comp = c <tag> <name> <id> <math> <resetCount> <isImport> <nvars> {var} <nkids> {comp}
 //                  var  = v <tag> <interfaceType> <neqs> {<tag>} <units tag|->
 //   X <n> {<vtag> <component tag|-> <tag of that component's parent|->}      equivalent variables outside the tree
+//   O <n> {<mtag> <k> {<tag>}}                                               the other live models in slots: units lists
+//   Q <n> {<tag> <class>}                                                    Units::equals as classes (smallest equal slot)
 //   strings are s<hex>.
 #include <algorithm>
 #include <set>
@@ -171,25 +178,85 @@ static std::string stateOf(Interp &in, const libcellml::ModelPtr &m)
             o << tagOf(in, std::dynamic_pointer_cast<libcellml::ParentedEntity>(ec)->parent());
         }
     }
+    std::vector<size_t> others;
+    for (size_t sl = 0; sl < in.slots.size(); ++sl) {
+        if (in.slots[sl].kind == Kind::Model && in.slots[sl].p.get() != static_cast<libcellml::Entity *>(m.get())) {
+            others.push_back(sl);
+        }
+    }
+    o << " O " << others.size();
+    for (size_t sl : others) {
+        auto om = std::static_pointer_cast<libcellml::Model>(in.slots[sl].p);
+        o << ' ' << sl << ' ' << om->unitsCount();
+        for (size_t i = 0; i < om->unitsCount(); ++i) {
+            o << ' ' << tagOf(in, om->units(i));
+        }
+    }
+    o << " Q " << us.size();
+    for (size_t a = 0; a < us.size(); ++a) {
+        auto ua = std::static_pointer_cast<libcellml::Units>(in.slots[us[a]].p);
+        size_t cls = us[a];
+        for (size_t b = 0; b < a; ++b) {
+            auto ub = std::static_pointer_cast<libcellml::Units>(in.slots[us[b]].p);
+            if (ub->equals(ua)) {
+                cls = us[b];
+                break;
+            }
+        }
+        o << ' ' << us[a] << ' ' << cls;
+    }
     return o.str();
 }
 
-static std::string buildCase(Interp &in, const std::string &script)
+static bool blankCmd(const std::string &cmd)
 {
-    for (const auto &cmd : splitws(script, ';')) {
-        bool blank = true;
-        for (char c : cmd) {
-            if (c != ' ' && c != '\t' && c != '\r') {
-                blank = false;
-            }
+    for (char c : cmd) {
+        if (c != ' ' && c != '\t' && c != '\r') {
+            return false;
         }
-        if (blank) {
+    }
+    return true;
+}
+
+// runs the build part, then (when withOps) the pre-history; `mid` is called between the two
+static std::string buildCase(Interp &in, const std::string &script, std::string *opsResults = nullptr,
+                             const std::function<void()> &mid = nullptr)
+{
+    bool inOps = false;
+    std::string res;
+    bool midDone = false;
+    for (const auto &cmd : splitws(script, ';')) {
+        if (blankCmd(cmd)) {
+            continue;
+        }
+        std::string t = cmd;
+        while (!t.empty() && t.front() == ' ') {
+            t.erase(t.begin());
+        }
+        while (!t.empty() && t.back() == ' ') {
+            t.pop_back();
+        }
+        if (t == "ops") {
+            inOps = true;
+            if (mid) {
+                mid();
+                midDone = true;
+            }
             continue;
         }
         std::string r = in.exec(cmd);
         if (r.rfind("ERR(", 0) == 0 || r.rfind("THROW(", 0) == 0) {
             return r + " at: " + cmd;
         }
+        if (inOps) {
+            res += (res.empty() ? "" : ",") + r;
+        }
+    }
+    if (mid && !midDone) {
+        mid();
+    }
+    if (opsResults != nullptr) {
+        *opsResults = res.empty() ? std::string("-") : res;
     }
     return "";
 }
@@ -229,7 +296,14 @@ static std::string runCase(const std::string &script)
     std::string s0;
     {
         Interp in;
-        std::string e = buildCase(in, script);
+        std::string p0;
+        std::string opsRes;
+        std::string e = buildCase(in, script, &opsRes, [&in, &p0]() {
+            auto m0 = in.model(0);
+            if (m0 != nullptr) {
+                p0 = stateOf(in, m0);
+            }
+        });
         if (!e.empty()) {
             return "SCRIPT-ERROR " + e;
         }
@@ -238,6 +312,7 @@ static std::string runCase(const std::string &script)
             return "SCRIPT-ERROR slot 0 is not a model";
         }
         s0 = stateOf(in, m);
+        out += "P0 " + p0 + "\tOPS " + opsRes + "\t";
         std::string d0 = dumpModel(m, false, false);
         bool ret = m->fixVariableInterfaces();
         std::string s1 = stateOf(in, m);
@@ -247,14 +322,27 @@ static std::string runCase(const std::string &script)
                 std::static_pointer_cast<libcellml::Variable>(sl.p)->removeUnits();
             }
         }
-        std::string iss = issuesOf(in, m);
+        // Validator::validateModel dereferences owningModel(units) of every listed units: not run on a model that
+        // lists a units object whose parent is not the model (reachable only by re-adding units to their model).
+        bool ownedAll = true;
+        for (size_t i = 0; i < m->unitsCount(); ++i) {
+            if (m->units(i)->parent().get() != static_cast<libcellml::ParentedEntity *>(m.get())) {
+                ownedAll = false;
+            }
+        }
+        std::string iss = ownedAll ? issuesOf(in, m) : std::string("skipped(listed-units-without-parent)");
         out += "S0 " + s0 + "\tFIX " + (ret ? "true " : "false ") + s1 + "\tVAL " + iss;
         out += "\tD0 " + d0 + "\tDFIX " + d1;
     }
     // ---- run B: link
     {
         Interp in;
-        buildCase(in, script);
+        buildCase(in, script, nullptr, [&in]() {
+            auto m0 = in.model(0);
+            if (m0 != nullptr) {
+                stateOf(in, m0); // same adoption order as run A
+            }
+        });
         auto m = in.model(0);
         if (stateOf(in, m) != s0) {
             return "NONDET (run B starts from a different state)";
@@ -268,7 +356,12 @@ static std::string runCase(const std::string &script)
     // ---- run C: clean
     {
         Interp in;
-        buildCase(in, script);
+        buildCase(in, script, nullptr, [&in]() {
+            auto m0 = in.model(0);
+            if (m0 != nullptr) {
+                stateOf(in, m0); // same adoption order as run A
+            }
+        });
         auto m = in.model(0);
         if (stateOf(in, m) != s0) {
             return "NONDET (run C starts from a different state)";
